@@ -67,13 +67,14 @@ Lemma reader_step_view s i :
             (x = status_ s \/ x = SPassiveClosing \/ x = SPassiveClosed).
 Proof.
   unfold reader_step. destruct (nth_error (readers s) i) as [[c p]|]; [|exists (status_ s); auto].
-  destruct p as [|x| |x|x|x n| | | | |].
+  destruct p as [|x| |x|x n|x|x n| | | | |].
   - destruct (mem c (lost s)); vw; exists (status_ s); auto.
   - destruct x; cbv iota; try (vw; exists (status_ s); auto; fail);
       (destruct (status_eqb (status_ s) _); vw; [exists SPassiveClosing | exists (status_ s)]; auto).
   - destruct (status_ s) eqn:E; cbv iota; vw;
       try (exists SPassiveClosing; auto; fail); exists (status_ s); auto.
   - vw. exists (status_ s); auto.
+  - destruct (existsb holds_mu (firstn n (calls s))); vw; exists (status_ s); auto.
   - vw. exists (status_ s); auto.
   - destruct (existsb holds_mu (firstn n (calls s))); [exists (status_ s); auto|].
     destruct x; cbv iota; vw; exists (status_ s); auto.
@@ -119,8 +120,8 @@ Qed.
 Lemma cancel_view s i k : view_of (step s (EvCancel i k)) = view_of s.
 Proof.
   cbn [step]. destruct (nth_error (readers s) i) as [[c p]|]; [|reflexivity].
-  destruct p; try reflexivity. destruct (nth_error (calls s) k) as [cl|]; [|reflexivity].
-  destruct (c_pc cl); try reflexivity. destruct (Nat.ltb k n); vw; reflexivity.
+  destruct p; try reflexivity; (destruct (nth_error (calls s) k) as [cl|]; [|reflexivity]);
+    (destruct (c_pc cl); try reflexivity); (destruct (Nat.ltb k n); vw; reflexivity).
 Qed.
 
 Lemma view_round_return s o b : view_of (round_return s o b) = vlock (view_of s) None.
@@ -483,6 +484,33 @@ Proof.
     assert (existsb holds_mu (firstn n (calls s)) = true) by (apply existsb_exists; eauto). congruence.
 Qed.
 
+(* the same for the first cancel pass, the one that runs before the wait for the handlers *)
+Lemma d4_first_lemma s i c x n :
+  nth_error (readers s) i = Some (c, RWantMu1 x n) ->
+  existsb holds_mu (firstn n (calls s)) = false ->
+  forall k cl, k < n -> nth_error (calls s) k = Some cl ->
+    nth_error (calls (reader_step s i)) k = Some (cancelled cl) /\
+    (forall c', c_pc (cancelled cl) <> CAwait c') /\ holds_mu cl = false.
+Proof.
+  intros Hr Hmu k cl Hk Hc. unfold reader_step. rewrite Hr, Hmu.
+  assert (Hf : nth_error (firstn n (calls s)) k = Some cl) by (rewrite nth_firstn; assumption).
+  split; [|split].
+  - rewrite calls_set_rpc. cbn [calls set_calls]. rewrite nth_error_app1.
+    + unfold cancel_all. rewrite nth_error_map, Hf. reflexivity.
+    + unfold cancel_all. rewrite map_length. apply nth_error_Some. congruence.
+  - intros c'. unfold cancelled. destruct (c_pc cl) eqn:E0; cbn; rewrite ?E0; congruence.
+  - apply nth_error_In in Hf. destruct (holds_mu cl) eqn:E2; [|reflexivity].
+    assert (existsb holds_mu (firstn n (calls s)) = true) by (apply existsb_exists; eauto). congruence.
+Qed.
+
+Lemma d4_both_lemma s i c x n :
+  nth_error (readers s) i = Some (c, RWantMu1 x n) \/ nth_error (readers s) i = Some (c, RWantMu x n) ->
+  existsb holds_mu (firstn n (calls s)) = false ->
+  forall k cl, k < n -> nth_error (calls s) k = Some cl ->
+    nth_error (calls (reader_step s i)) k = Some (cancelled cl) /\
+    (forall c', c_pc (cancelled cl) <> CAwait c') /\ holds_mu cl = false.
+Proof. intros [H|H]; [eapply d4_first_lemma | eapply d4_lemma]; exact H. Qed.
+
 (* a reader-owned round that fails is followed by D8 *)
 Lemma d8_lemma s i c :
   nth_error (readers s) i = Some (c, RAfterFail) ->
@@ -513,10 +541,10 @@ Definition w_stuck : list ev :=
    EvRound; EvRound; EvCaller 0 false; EvCaller 0 false; EvReply 0;
    EvAcquire (OwC 1); EvRound; EvRound; EvRound; EvRound;
    EvCaller 1 false; EvCaller 1 false; EvReply 1;
-   EvReader 1; EvReader 1; EvReader 1; EvReader 1; EvReader 1; EvReader 1;
+   EvReader 1; EvReader 1; EvReader 1; EvReader 1; EvReader 1; EvReader 1; EvReader 1;
    EvAcquire (OwR 1); EvRound;
    EvReader 2; EvReader 2;
-   EvReader 0; EvReader 0; EvReader 0; EvReader 0; EvAcquire (OwR 0); EvRound].
+   EvReader 0; EvReader 0; EvReader 0; EvReader 0; EvReader 0; EvAcquire (OwR 0); EvRound].
 
 Lemma reader_step_out s i : length (readers s) <= i -> reader_step s i = s.
 Proof. intros H. unfold reader_step. apply nth_error_None in H. rewrite H. reflexivity. Qed.
@@ -568,7 +596,7 @@ Qed.
 Definition w_exhausted : list ev :=
   [EvCut; EvReader 0; EvReader 0;
    EvCall false; EvCaller 0 false; EvAcquire (OwC 0); EvRound; EvRound; EvRound; EvRound; EvRound;
-   EvReader 0; EvReader 0; EvReader 0; EvReader 0; EvAcquire (OwR 0); EvRound].
+   EvReader 0; EvReader 0; EvReader 0; EvReader 0; EvReader 0; EvAcquire (OwR 0); EvRound].
 
 Lemma w_exhausted_lemma :
   let s := run (init 1 true [VJ; VU] VU) w_exhausted in
@@ -589,7 +617,7 @@ Definition w_overlap : list ev :=
   [EvCut; EvReader 0; EvReader 0;
    EvCall true; EvCaller 0 false; EvAcquire (OwC 0); EvRound; EvRound; EvRound; EvRound;
    EvCaller 0 false; EvCaller 0 false;
-   EvReader 0; EvReader 0; EvReader 0; EvReader 0].
+   EvReader 0; EvReader 0; EvReader 0; EvReader 0; EvReader 0].
 
 Lemma w_overlap_lemma :
   let s1 := run (init 2 true [] VA) (firstn 12 w_overlap) in
